@@ -110,10 +110,13 @@ func (g *Generate) Parse() error {
 				// in the AST.as a _typed_ variable.
 				xprStr := types.ExprString(v.astLine.Values[j])
 				tDesc := traits[j-1]
+				tv := pkg.TypesInfo.Types[v.astLine.Values[j]]
 				tDesc.Traits = append(tDesc.Traits, TraitInstance{
 					OwningValue:  v,
 					variableName: v.astLine.Names[j].Name,
 					value:        xprStr,
+					constType:    tv.Type,
+					constValue:   tv.Value,
 				})
 				sort.Sort(tDesc.Traits)
 				traits[j-1] = tDesc
@@ -224,6 +227,8 @@ func (g *Generate) extractTraitDescs(tName string, pkgScope *types.Scope, values
 					OwningValue:  firstV,
 					variableName: name,
 					value:        v.Val().ExactString(),
+					constType:    v.Type(),
+					constValue:   v.Val(),
 				},
 			},
 		}
